@@ -38,6 +38,9 @@ FORBIDDEN_TOKENS = re.compile(
     re.M,
 )
 
+import logging
+logging.disable(logging.CRITICAL)
+
 HOOK_ENV = "DLMS_COSEM_VERIF"
 os.environ.setdefault(HOOK_ENV, "1")
 
@@ -452,6 +455,10 @@ def evaluate_cases(prop, case_iter, stats, max_mismatches=25, sample_every=None,
             if "bad-op" in exp:
                 raise MachineryError(f"driver rejected protocol line(s) {c.lines[:3]} -> {exp[:3]}")
             if list(exp) != list(obs):
+                if c.kind == "split":
+                    # lines are "<what the property demands> | <what the model of the code does>"
+                    left = lambda xs: [x.split(" | ")[0] for x in xs]
+                    c.kind = "prop" if left(exp) != left(obs) else "model"
                 mismatches.append(Mismatch(c, exp, obs))
         buf.clear()
 
